@@ -1045,22 +1045,39 @@ def _connector_attr(ctx: Context):
     cfg = ctx.cfg(f.qualname)
     target = f"{HC}._reconnect"
     nodes, ks = [], set()
+    T = ctx.terms
+
+    def is_reconnect_call(t) -> bool:
+        return t[0] == "call" and t[1][0] == "attr" and t[1][2] == "_reconnect" and t[1][1][0] == "param"
+
+    def is_spawn(t) -> bool:
+        """<task spawner>(self._reconnect()) - as a value term, so a temporary holding the coroutine is transparent"""
+        if t[0] != "call" or not t[2] or not is_reconnect_call(t[2][0]):
+            return False
+        fn = t[1]
+        return (fn[0] == "glob" and fn[1] in TASK_SPAWNERS) or (fn[0] == "attr" and fn[2] == "create_task")
+
+    n_calls = sum(1 for n in cfg.nodes if n.copy_of in ("", None) for c in ctx.calls(n) if target in ctx.callee_names(f, c))
     for n in cfg.nodes:
-        for c in ctx.calls(n):
-            if target in ctx.callee_names(f, c):
-                spawned = any(
-                    isinstance(o, ast.Call) and o.args and o.args[0] is c
-                    and ((_resolved(ctx, f, o.func) or "") in TASK_SPAWNERS or (isinstance(o.func, ast.Attribute) and o.func.attr == "create_task"))
-                    for o in ctx.calls(n)
-                )
-                if not spawned:
-                    return "_start_connector does not hand _reconnect() to a task spawner"
-                a = n.ast
-                if not (isinstance(a, ast.Assign) and len(a.targets) == 1 and isinstance(a.targets[0], ast.Attribute)
-                        and isinstance(a.targets[0].value, ast.Name) and a.targets[0].value.id == "self"):
-                    return "_start_connector does not keep the connector task in an attribute of self"
-                ks.add(a.targets[0].attr)
-                nodes.append(n)
+        a = n.ast
+        if not (isinstance(a, ast.Assign) and n.kind != "test" and a.value is not None):
+            continue
+        t = strip_sites(T.of(cfg, n, a.value))
+        if not is_spawn(t):
+            continue
+        if not (len(a.targets) == 1 and isinstance(a.targets[0], ast.Attribute)
+                and isinstance(a.targets[0].value, ast.Name) and a.targets[0].value.id == "self"):
+            # a temporary holding the task: it must flow, unchanged, into exactly one attribute of self
+            holders = [m for m in cfg.nodes if isinstance(m.ast, ast.Assign) and len(m.ast.targets) == 1 and isinstance(m.ast.targets[0], ast.Attribute)
+                       and isinstance(m.ast.targets[0].value, ast.Name) and m.ast.targets[0].value.id == "self" and m is not n
+                       and strip_sites(T.of(cfg, m, m.ast.value)) == t]
+            if not holders:
+                return "_start_connector does not keep the connector task in an attribute of self"
+            continue
+        ks.add(a.targets[0].attr)
+        nodes.append(n)
+    if n_calls and not nodes:
+        return "_start_connector does not hand _reconnect() to a task spawner"
     if len(ks) != 1:
         return f"_start_connector: expected one attribute holding the connector task, found {sorted(ks)}"
     return ks.pop(), _uniq(nodes)
